@@ -14,7 +14,8 @@ MANIFEST = dict(
          "order) up to a depth, each is replayed on the real sketchers with fresh concrete items and several sizes, and TLC "
          "validates every recorded step against the join of measured single-item tables (TraceJoin.tla / TraceDens.tla), "
          "including 'stored hashes are hashes of streamed items'. Long random streams (hundreds of items, m from 1 to far "
-         "larger than the stream) are recorded and validated the same way.",
+         "larger than the stream) are recorded and validated the same way."
+         " Realistic sizes (m up to 30000, streams up to 10^6) are covered harness-side with the same Layer-A function; for f32 densified sketches, witness pairs of items that tie in a bin are searched and streamed in both orders (TraceDens.tla demands that the owner of a bin is a function of the set streamed).",
     design_ref="DESIGN.md section 4, C04/C05",
     note="trusted: TLC, Json/IOUtils community modules, the rank abstraction (order isomorphism) of the harness, measured "
          "single-item tables (a fresh sketcher fed one item); exhaustive only for the stated small bounds, larger sizes sampled",
